@@ -64,20 +64,23 @@ def decide(ctx, binpath, module, invs, traces):
 # ----------------------------------------------------------------------------
 # file family
 
-def hist_traces(ctx, binpath, shapes, depth, readers, opens=("direct",)):
+def hist_traces(ctx, binpath, shapes, depth, readers, opens=("direct",), small=False):
     """TLC explores every Seek/Read history of FileRead up to `depth` for each
     shape and exports it; the harness replays each on real readers."""
     traces = []
     for (n, w, k, last, writer) in shapes:
-        r = vlib.model_check(ctx, "MCFileRead", cfg_fileread(n, w, k, last, depth, readers=readers),
-                             name=f"MCFileRead_{n}_{w}_{k}_{last}_d{depth}_r{len(readers)}", want_cases=True)
+        cfg = cfg_fileread(n, w, k, last, depth, readers=readers)
+        if small:
+            cfg = cfg.replace("Offsets <- MCOffsets", "Offsets <- MCOffsetsSmall").replace("Ks <- MCKs", "Ks <- MCKsSmall")
+        r = vlib.model_check(ctx, "MCFileRead", cfg,
+                             name=f"MCFileRead_{n}_{w}_{k}_{last}_d{depth}_r{len(readers)}{'_small' if small else ''}", want_cases=True)
         if not r["cases"]:
             raise Broken("TLC exported no histories")
         casefile = ctx.path(f"hist_{n}_{w}_{k}_{last}_{depth}_{len(readers)}.jsonl")
         open(casefile, "w").write("\n".join(r["cases"]) + "\n")
         ctx.extra["tlc_histories_exported"] = ctx.extra.get("tlc_histories_exported", 0) + len(r["cases"])
         for op in opens:
-            traces.append(gen(ctx, binpath, f"hist_{n}_{w}_{k}_{last}_{writer}_{op}_d{depth}_r{len(readers)}",
+            traces.append(gen(ctx, binpath, f"hist_{n}_{w}_{k}_{last}_{writer}_{op}_d{depth}_r{len(readers)}{'s' if small else ''}",
                               ["file-hist", "-n", n, "-w", w, "-k", k, "-last", last, "-cases", casefile, "-open", op,
                                "-writer", writer, "-readers", max(readers)]))
     return traces
@@ -94,7 +97,9 @@ def run_C01(ctx):
          gen(ctx, b, "writers", ["file-gen", "-what", "writers", "-maxn", 6 if q else 14, "-wmax", 3 if q else 4]),
          gen(ctx, b, "random", ["file-gen", "-what", "random", "-count", 40 if q else 600, "-seed", ctx.seed]),
          # a writer that omits BlockSizes: child sizes come from Tsize or from opening the children
-         gen(ctx, b, "seq_nobs", ["file-gen", "-what", "seq", "-maxn", 7 if q else 16, "-wmax", 3, "-writer", "own-nobs"])]
+         gen(ctx, b, "seq_nobs", ["file-gen", "-what", "seq", "-maxn", 7 if q else 16, "-wmax", 3, "-writer", "own-nobs"]),
+         # trees of 8+ levels (narrow width, many chunks) and contents whose chunks repeat
+         gen(ctx, b, "deep", ["file-gen", "-what", "deep", "-maxn", 300 if q else 3000])]
     ctx.exhaustive = False
     decide(ctx, b, "TraceFile", FILE_INVS["C01"], t)
 
@@ -107,6 +112,9 @@ def run_C04(ctx):
     if not q:
         t += hist_traces(ctx, b, [(5, 2, 3, 2, "own"), (1, 2, 3, 3, "boxo-balanced-pb-v0"), (7, 3, 2, 1, "boxo-balanced-pb-v1")],
                          3, (1,), opens=("direct",))
+    # a mixed-depth (trickle) reference DAG, and longer histories over a reduced alphabet
+    t += hist_traces(ctx, b, [(7, 2, 3, 1, "boxo-trickle-raw-v1")], 2, (1, 2), opens=("direct",))
+    t += hist_traces(ctx, b, [(5, 2, 3, 2, "own")] if q else [(5, 2, 3, 2, "own"), (7, 2, 3, 1, "boxo-trickle-raw-v1")], 4, (1,), opens=("direct",), small=True)
     t.append(gen(ctx, b, "randhist", ["file-gen", "-what", "randhist", "-count", 150 if q else 3000, "-seed", ctx.seed]))
     t.append(gen(ctx, b, "random", ["file-gen", "-what", "random", "-count", 25 if q else 300, "-seed", ctx.seed + 7]))
     ctx.exhaustive = True
@@ -283,7 +291,8 @@ def run_C07(ctx):
     t = [bgen(ctx, b, "files", ["-maxn", 24 if q else 90, "-wmax", 4 if q else 7]),
          bgen(ctx, b, "dedup", ["-maxn", 5 if q else 6, "-wmax", 2 if q else 3]),
          bgen(ctx, b, "random", ["-count", 30 if q else 500]),
-         bgen(ctx, b, "wide", ["-maxn", 400 if q else 40000])]
+         bgen(ctx, b, "wide", ["-maxn", 400 if q else 40000]),
+         bgen(ctx, b, "deep", ["-maxn", 300 if q else 3000])]
     ctx.exhaustive = True
     decide(ctx, b, "TraceBuild", BUILD_INVS["C07"], t)
 
@@ -296,6 +305,7 @@ def run_C10(ctx):
          bgen(ctx, b, "frag", ["-maxn", 7 if q else 10, "-count", 10 if q else 200]),
          bgen(ctx, b, "misc", []),
          bgen(ctx, b, "mixdir", ["-repeat", 3 if q else 12]),
+         bgen(ctx, b, "hashers", ["-orders", 6 if q else 24, "-repeat", 3 if q else 10]),
          bgen(ctx, b, "files", ["-maxn", 6 if q else 12, "-wmax", 3, "-repeat", 2])]
     ctx.exhaustive = True
     decide(ctx, b, "TraceBuild", BUILD_INVS["C10"], t)
@@ -324,6 +334,7 @@ def run_C16(ctx):
     t = [bgen(ctx, b, "files", ["-maxn", 10 if q else 30, "-wmax", 3 if q else 4, "-faults"]),
          bgen(ctx, b, "dirs", ["-fanouts", "8" if q else "8,16,256,1024", "-orders", 1, "-repeat", 2, "-faults"]),
          bgen(ctx, b, "trees", ["-count", 10 if q else 100, "-faults"]),
+         bgen(ctx, b, "mixdir", ["-faults", "-repeat", 0, "-maxn", 12]),
          bgen(ctx, b, "misc", [])]
     ctx.exhaustive = True
     decide(ctx, b, "TraceBuild", BUILD_INVS["C16"], t)
